@@ -117,6 +117,30 @@ var pumpPatterns = map[string]func(n int) string{
 	"nested-fn-args": func(n int) string { return strings.Repeat("concat(a,", n) + "b" + strings.Repeat(")", n) },
 }
 
+func init() {
+	// every function nested in itself, through its first and through its last argument
+	type sig struct {
+		name      string
+		pre, post string // the other (constant) arguments before / after the nested one
+	}
+	for _, f := range []sig{
+		{"not", "", ""}, {"boolean", "", ""}, {"string", "", ""}, {"number", "", ""}, {"count", "", ""}, {"sum", "", ""},
+		{"floor", "", ""}, {"ceiling", "", ""}, {"round", "", ""}, {"name", "", ""}, {"local-name", "", ""}, {"namespace-uri", "", ""},
+		{"string-length", "", ""}, {"normalize-space", "", ""}, {"lower-case", "", ""}, {"reverse", "", ""},
+		{"concat", "", ",'x'"}, {"concat", "'x',", ""}, {"contains", "", ",'x'"}, {"contains", "'x',", ""},
+		{"starts-with", "", ",'x'"}, {"ends-with", "'x',", ""}, {"substring-before", "", ",'x'"}, {"substring-after", "'x',", ""},
+		{"substring", "", ",1"}, {"substring", "'x',", ""}, {"substring", "'x',1,", ""}, {"translate", "", ",'a','b'"},
+		{"translate", "'a','b',", ""}, {"string-join", "", ",'x'"}, {"string-join", "a,", ""}, {"matches", "", ",'x'"},
+		{"replace", "", ",'x','y'"}, {"replace", "'x','y',", ""},
+	} {
+		f := f
+		key := "fn-nest:" + f.name + "(" + f.pre + "_" + f.post + ")"
+		pumpPatterns[key] = func(n int) string {
+			return strings.Repeat(f.name+"("+f.pre, n) + "a" + strings.Repeat(f.post+")", n)
+		}
+	}
+}
+
 // cycles of the call graph each pattern drives (function names of parse.go/build.go)
 var pumpCycles = map[string][]string{
 	"sequence-step": {"parseStep", "parseSequence"},
